@@ -50,6 +50,7 @@ package apd
 
 //@ func (*BigInt).innerAsUint64
 //@   layer bigint
+//@   unreachable ret2: the fallback loop for other inline sizes is dead code for inlineWords == 2
 //@   props C16
 //@   requires rep(z)
 //@   pure
@@ -711,6 +712,7 @@ package apd
 
 //@ func Rounder.Round
 //@   props C01 C02 C07 C20
+//@   unreachable ret2: diff > 0 at that point, so diff < MinExponent cannot hold
 //@   reveal RoundedNS SysIff
 //@   requires writable(d) && inv(x)
 //@   assigns d
@@ -770,6 +772,7 @@ package apd
 
 //@ func (*Context).setAsNaN
 //@   props C08 C03 C05 C06
+//@   unreachable ret1: the precondition says one of the operands is a NaN
 //@   nilable y
 //@   requires writable(d) && (isnan(x) || (y != nil && isnan(y))) && inv(x) && (y != nil ==> inv(y))
 //@   assigns d
@@ -1765,6 +1768,7 @@ package apd
 
 //@ func (*Decimal).Int64
 //@   props C17 C04
+//@   unreachable ret3: the ErrDecimal declared in the body has no context and never carries an error
 //@   exported
 //@   requires inv(d) && -2000000000 <= d.Exponent
 //@   assigns nothing
@@ -2124,6 +2128,7 @@ package apd
 //@   ensures len(ret) >= len(buf) + 1
 //@ func (*Decimal).Append
 //@   props C04
+//@   unreachable ret1: the default case of the switch over the four valid forms
 //@   exported
 //@   requires inv(d)
 //@ func fmtE
